@@ -45,6 +45,9 @@ type Exec struct {
 	Modular map[string]int
 	// store hook for frame / loop-modifies checks
 	storeHook func(st *State, p Ptr)
+	ctxSuffix string
+	NoSafety  bool
+	funcIDs   map[string]int
 }
 
 const (
@@ -342,7 +345,29 @@ func (x *Exec) refOf(v Value) *Term {
 }
 
 func (x *Exec) funcID(f FuncV) int {
-	// closures / functions stored into reference arrays get registry ids
+	// closures / functions stored into reference arrays get registry ids (stable per function + bindings)
+	key := fmt.Sprintf("%p", f.Fn)
+	for _, b := range f.Bind {
+		switch bv := b.(type) {
+		case Ptr:
+			if bv.Obj != nil {
+				key += fmt.Sprintf("|o%d%s", bv.Obj.ID, pathStr(bv.Obj.Typ, bv.Path))
+			} else {
+				key += "|nil"
+			}
+		case Scalar:
+			key += fmt.Sprintf("|t%d", bv.T.id)
+		default:
+			key += fmt.Sprintf("|%T", b)
+		}
+	}
+	if x.funcIDs == nil {
+		x.funcIDs = map[string]int{}
+	}
+	if id, ok := x.funcIDs[key]; ok {
+		return id
+	}
+	defer func() { x.funcIDs[key] = x.nextIf }()
 	x.nextIf++
 	id := x.nextIf
 	x.ifaceReg[id] = IfaceV{Dyn: nil, V: f, ID: id}
@@ -728,11 +753,13 @@ func (x *Exec) oblige(st *State, fr *Frame, kind, site string, c *Term) {
 	if c.IsTrue() {
 		return
 	}
-	name := fmt.Sprintf("%s#%s@%s", fnName(fr.fn), kind, site)
+	name := fmt.Sprintf("%s#%s@%s%s", fnName(fr.fn), kind, site, x.ctxSuffix)
 	if x.specDepth > 0 {
 		name = "spec:" + name
 	}
-	x.record(Oblig{Name: name, Cond: c, PC: st.PC(), Kind: kind, Fn: fnName(fr.fn)})
+	if !x.NoSafety {
+		x.record(Oblig{Name: name, Cond: c, PC: st.PC(), Kind: kind, Fn: fnName(fr.fn)})
+	}
 	st.Assume = append(st.Assume, Implies(st.Branch(), c))
 }
 
@@ -740,6 +767,7 @@ func (x *Exec) record(o Oblig) {
 	if o.Cond.IsTrue() || o.PC.IsFalse() {
 		return
 	}
+	o.Cond = x.skolem(o.Cond)
 	k := fmt.Sprintf("%s|%d|%d", o.Name, o.Cond.id, o.PC.id)
 	if x.obSeen[k] {
 		return
@@ -1277,21 +1305,24 @@ func (x *Exec) mergeNames(entry *State, nf *Frame, outs []Outcome) {
 				break
 			}
 			v := tv.V
-			accT = tv.T
 			if acc == nil {
 				acc = v
+				accT = tv.T
 				continue
 			}
 			func() {
 				defer func() {
 					if r := recover(); r != nil {
-						if _, isMF := r.(mergeFail); isMF {
-							ok = false
-							return
+						if _, isEE := r.(engineErr); isEE {
+							panic(r)
 						}
-						panic(r)
+						ok = false // same source name, different variables (scopes): not merged
 					}
 				}()
+				if accT != nil && tv.T != nil && !types.Identical(accT, tv.T) {
+					ok = false
+					return
+				}
 				acc = x.mergeV(And(outs[i].St.Cond[n:]...), v, acc)
 			}()
 			if !ok {
@@ -2005,3 +2036,50 @@ func (x *Exec) typeAssert(st *State, fr *Frame, in *ssa.TypeAssert) Value {
 }
 
 func (x *Exec) zeroOrRef(t types.Type) Value { return x.zero(t) }
+
+
+// skolem replaces universally quantified variables in positive positions of a goal by fresh constants
+// (to prove ∀k.P(k) it suffices to prove P(k0) for an arbitrary k0).
+func (x *Exec) skolem(t *Term) *Term {
+	if !t.bound && t.Op != "forall" && t.Op != "and" && t.Op != "not" {
+		return t
+	}
+	switch t.Op {
+	case "forall":
+		k := x.freshVar("sk_"+t.Args[0].Name, t.Args[0].S)
+		return x.skolem(Subst(t.Args[1], map[int64]*Term{t.Args[0].id: k}))
+	case "and":
+		as := make([]*Term, len(t.Args))
+		ch := false
+		for i, a := range t.Args {
+			as[i] = x.skolem(a)
+			if as[i] != a {
+				ch = true
+			}
+		}
+		if ch {
+			return And(as...)
+		}
+	case "not":
+		// ¬(a ∧ ¬b) = a ⇒ b : skolemise the consequent(s)
+		in := t.Args[0]
+		if in.Op == "and" {
+			as := make([]*Term, len(in.Args))
+			ch := false
+			for i, a := range in.Args {
+				as[i] = a
+				if a.Op == "not" {
+					n := x.skolem(a.Args[0])
+					if n != a.Args[0] {
+						as[i] = Not(n)
+						ch = true
+					}
+				}
+			}
+			if ch {
+				return Not(And(as...))
+			}
+		}
+	}
+	return t
+}
